@@ -209,6 +209,8 @@ class Gen:
         r = self.r
         pool = [n for n in self.inputs + self.names[:idx] if n not in self.terminal]
         x = r.random()
+        if x < 0.03 and self.feat.get("elementwise_product", True):
+            return "%s * %s" % (self.lit(pool), self.lit(pool))  # the element-wise product of two blocks (absent if either is)
         if x < 0.32:
             t = self.lit(pool)
             return t + ".adj" if r.random() < 0.3 else t
@@ -346,7 +348,7 @@ class Prop:
                 "domain": "float" if r.random() < 0.3 else "tracer", "sizes": [r.choice([1, 2]) for _ in range(3)],
                 # the last diagonal block is kept as a LinearOperator; only for programs whose declared products have two factors
                 # (like the shipped algorithms): an intermediate of a longer plain product would add operators and matrices
-                "linop_mask": True if (r.random() < 0.5 and all(p.count("@") == 1 for p in products)) else None,
+                "linop_mask": True if (r.random() < 0.5 and all(p.count("@") == 1 for p in products) and '" * "' not in src) else None,
                 "scaled_op": r.random() < 0.5,
                 "inputs": {n: {"pz": r.choice([0.0, 0.2, 0.5]), "zero0": r.random() < 0.3, "iseed": r.randrange(1 << 30)} for n in inputs},
                 "flag": r.random() < 0.5, "flags": [r.random() < 0.5 for _ in range(nb)]}
